@@ -745,12 +745,17 @@ fn s6(ctx: &mut Ctx, env: &Env, rep: &mut Rep, k: &K, text: &str, rng: &mut ChaC
 
 #[allow(clippy::too_many_arguments)]
 fn run_payload(ctx: &mut Ctx, env: &Env, cfgs: &[MsgCfg], family: &'static str, p: &[u8], ki: usize, rot: u64, rng: &mut ChaCha8Rng, hooks_on: bool) {
+    run_payload_h(ctx, env, cfgs, family, p, ki, rot, rng, hooks_on, None)
+}
+
+#[allow(clippy::too_many_arguments)]
+fn run_payload_h(ctx: &mut Ctx, env: &Env, cfgs: &[MsgCfg], family: &'static str, p: &[u8], ki: usize, rot: u64, rng: &mut ChaCha8Rng, hooks_on: bool, hash: Option<HashAlgorithm>) {
     let k = &env.keys[ki];
     let mut rep = Rep {
         p,
         cls: class(p),
         key: k.name,
-        hash: HASHES[(rot as usize + ki) % 3],
+        hash: hash.unwrap_or(HASHES[(rot as usize + ki) % 3]),
         cfg: String::new(),
         family,
         hooks: hooks_on,
@@ -1068,6 +1073,74 @@ pub fn run(ctx: &mut Ctx) {
         }
         if i < 2 {
             ctx.sample(json!({"family": "R", "i": i, "len": p.len(), "class": class(&p), "head": hexs(&p[..p.len().min(64)])}));
+        }
+    }
+
+    // ----------------------------------------------------------------------------------
+    // Family H: key algorithm x key version x hash algorithm sweep. Every signing algorithm of the zoo in
+    // v4 and (where defined) v6, with every hash algorithm the key's primitive accepts (SHA-1 .. SHA3-512,
+    // i.e. every v6 salt size), over a small set of canonicalisation-relevant payloads, through all sign and
+    // verify interfaces. Many signatures per ECDSA / DSA key also reach the short (leading zero octet) r / s
+    // encodings.
+    let mut env = env;
+    let base_keys = env.keys.len();
+    for (name, spec) in [
+        ("v6-Rsa2048", Spec::simple(true, Alg::Rsa2048, None)),
+        ("v4-EcdsaP384", Spec::simple(false, Alg::EcdsaP384, None)),
+        ("v6-EcdsaP384", Spec::simple(true, Alg::EcdsaP384, None)),
+        ("v4-EcdsaP521", Spec::simple(false, Alg::EcdsaP521, None)),
+        ("v6-EcdsaP256", Spec::simple(true, Alg::EcdsaP256, None)),
+        ("v4-EcdsaK256", Spec::simple(false, Alg::EcdsaK256, None)),
+        ("v6-Ed448", Spec::simple(true, Alg::Ed448, None)),
+        ("v4-Ed25519", Spec::simple(false, Alg::Ed25519, None)),
+        ("v4-Dsa2048", Spec::simple(false, Alg::Dsa2048, None)),
+    ] {
+        env.keys.push(K::new(name, &spec));
+    }
+    let env = env;
+    let all_hashes = [
+        HashAlgorithm::Sha1,
+        HashAlgorithm::Sha224,
+        HashAlgorithm::Sha256,
+        HashAlgorithm::Sha384,
+        HashAlgorithm::Sha512,
+        HashAlgorithm::Sha3_256,
+        HashAlgorithm::Sha3_512,
+    ];
+    let h_payloads: [&[u8]; 6] = [b"", b"a\r", b"x\r\ny \n-z\t", b"\n", b"- dash\r\rline\n\n", b"plain text without line ending"];
+    let rounds = ctx.qt(1u64, 6u64);
+    for ki in 0..env.keys.len() {
+        let k = &env.keys[ki];
+        let slow = k.name.contains("Rsa") || k.name.contains("Dsa");
+        for (hi, h) in all_hashes.iter().enumerate() {
+            // RFC 9580 table 23 defines no v6 salt size for SHA-1: a v6 key cannot sign with it
+            if k.v6() && *h == HashAlgorithm::Sha1 {
+                continue;
+            }
+            // hash algorithms the key's primitive refuses by (documented) policy are not part of the sweep
+            let probe = vec![0x5Au8; h.digest_size().unwrap_or(32)];
+            if pgp::types::SigningKey::sign(&k.sk.primary_key, &Password::empty(), *h, &probe).is_err() {
+                ctx.tally("H.hash-refused-by-key-policy", 1);
+                continue;
+            }
+            for round in 0..rounds {
+                for (pi, p) in h_payloads.iter().enumerate() {
+                    if ki < base_keys && HASHES.contains(h) && round > 0 {
+                        continue;
+                    }
+                    if slow && (pi + hi + round as usize) % 3 != 0 {
+                        continue;
+                    }
+                    if !ctx.mine() {
+                        continue;
+                    }
+                    core::describe_case(&format!("H key={} hash={h:?} p={pi} round={round}", k.name));
+                    ctx.cover(&("H", k.name, hi, pi, round));
+                    let rot = (ki * 1000 + hi * 100 + pi * 10) as u64 + round;
+                    let mut rng = ctx.rng("H", rot);
+                    run_payload_h(ctx, &env, &cfgs, "H", p, ki, rot, &mut rng, false, Some(*h));
+                }
+            }
         }
     }
 
